@@ -14,6 +14,7 @@ physical objects; an in-use entry's "offset" is the index of the physical object
         ↦ `insertEnt`, `secTable`: free / in-use entries go to `entries`; a type-2 entry goes to
           `ext` AND (as a dummy `{0,0,in_use}`) to `entries`
   * `parse_with_incremental_updates_options` (newest-first walk of /Prev)  ↦ `merge`
+        (`mergeOld` = the loop before the repair of C04-F1, kept for the regression witnesses)
   * `add_headers_latest_wins`                 ↦ `addHeadersLatestWins`
   * `PdfReader::load_object_from_disk` + `get_compressed_object` + `ObjectStream::{parse,get_object}`
         ↦ `load` (strict syntax, i.e. `lenient_syntax = false`: `ParseOptions::strict()` and
@@ -71,14 +72,27 @@ def insertEnt (t : Table) (n : Nat) : Ent → Table
 def secTable (s : Sect) : Table :=
   s.foldl (fun t p => insertEnt t p.1 p.2) Table.empty
 
-/-- loop body of `parse_with_incremental_updates_options`: both maps merged with `or_insert`,
-    independently of each other -/
+/-- loop body of `parse_with_incremental_updates_options` (since /repo `fix: a newer
+    cross-reference section settles an object number across both xref maps`): the extended entries
+    of the older section `t` are taken FIRST and only for numbers that no newer section mentions
+    (`!merged_table.entries.contains_key(&obj_num)` — every type-2 entry leaves its dummy in
+    `entries`, so `m.entries` knows every number a newer section mentioned); then `entries` is
+    merged with `or_insert` -/
 def mergeInto (m t : Table) : Table :=
-  ⟨m.entries.orMerge t.entries, m.ext.orMerge t.ext⟩
+  ⟨m.entries.orMerge t.entries,
+   fun j => if (m.entries j).isSome then m.ext j else (m.ext.orMerge t.ext) j⟩
 
 /-- `parse_with_incremental_updates_options`; `chain` is newest first (the order of the walk) -/
 def merge (chain : List Sect) : Table :=
   chain.foldl (fun m s => mergeInto m (secTable s)) Table.empty
+
+/-- the loop body BEFORE the repair: both maps merged with `or_insert`, independently of each
+    other (kept as the regression the check must catch: C04-F1) -/
+def mergeIntoOld (m t : Table) : Table :=
+  ⟨m.entries.orMerge t.entries, m.ext.orMerge t.ext⟩
+
+def mergeOld (chain : List Sect) : Table :=
+  chain.foldl (fun m s => mergeIntoOld m (secTable s)) Table.empty
 
 /-- what `load_object_from_disk` dispatches on for object `n`: the extended (compressed) entry is
     consulted BEFORE the plain entry -/
@@ -262,26 +276,31 @@ def headersOf (ph : List Phys) : List Header :=
     | some p => some ⟨p.num, p.gen, i⟩
     | none => none
 
-/-- "no kind flip" for number `n`: once the newest mention of `n` is a plain (in-use or free)
-    entry, neither that section nor any older one holds a compressed entry for `n` -/
-def NoKindFlip : List Sect → Nat → Prop
-  | [], _ => True
+/-- the compressed entry the merged table keeps for `n`: the one of the newest section that
+    mentions `n` at all (closed form of `(merge chain).ext`) -/
+def extOf : List Sect → Nat → Option (Nat × Nat)
+  | [], _ => none
   | s :: rest, n =>
     match lastOf s n with
-    | some (.comp _ _) => True
-    | some _ => firstComp (s :: rest) n = none
-    | none => NoKindFlip rest n
+    | some _ => lastComp s n
+    | none => extOf rest n
 
-instance : (chain : List Sect) → (n : Nat) → Decidable (NoKindFlip chain n)
-  | [], _ => isTrue trivial
-  | s :: rest, n => by
-    unfold NoKindFlip
-    cases lastOf s n with
-    | none => exact instDecidableNoKindFlip rest n
-    | some e =>
-      cases e with
-      | comp a b => exact isTrue trivial
-      | free a b => exact inferInstance
-      | inuse a b => exact inferInstance
+/-- the newest section that mentions `n` -/
+def newestSect : List Sect → Nat → Option Sect
+  | [], _ => none
+  | s :: rest, n =>
+    match lastOf s n with
+    | some _ => some s
+    | none => newestSect rest n
+
+/-- `n` is listed at most once in the section (ISO 32000-1 §7.5.4: a cross-reference section
+    holds one entry per object number; subsections / `/Index` ranges do not overlap) -/
+def ListedOnce (s : Sect) (n : Nat) : Prop := (s.filter (fun p => p.1 = n)).length ≤ 1
+
+instance (s : Sect) (n : Nat) : Decidable (ListedOnce s n) := by
+  unfold ListedOnce; exact inferInstance
+
+/-- every section of the chain lists every number at most once -/
+def SectionsValid (chain : List Sect) : Prop := ∀ s ∈ chain, ∀ m, ListedOnce s m
 
 end OxiVerif.C04
